@@ -20,7 +20,8 @@ NOT_APPLICABLE = {
 }
 
 TECHNIQUE = {
-    "C02": "MIR loop-shape / edge-dominance rules + difference-bound range analysis (fuzz trimming bounds)",
+    "C02": "MIR loop-shape / edge-dominance rules, provenance of the fuzz level, and a finite-order model of the scan's iterator term "
+           "(Range/rev/interleave over expected line, file length, hunk length) deciding completeness and nearest-first order",
     "C04": "typestate pairing over MIR field writes (apply vs rollback), who-may-call rule on the aborting rollback API, LIFO iterator typing",
     "C05": "MIR dominance / must-pass-through ordering rules on both drivers and cmd_push (record-after-save, rollback-before-save, exit status)",
     "C06": "static effect and sharing analysis of the rayon closures: captured types, atomic method set, barrier dominance, FS-effect conflicts",
@@ -33,10 +34,12 @@ TECHNIQUE = {
     "C14": "flag non-interference (branch regions on Verbosity/stats are print-only: no live assignments, no effects, no aborting API), sibling agreement of the two Arena impls, signature/ADT interior-mutability check",
     "C15": "dominance of unlink before create per path value, who-may-write set, mmap flag constants, handle-vs-path permission setting",
     "C16": "value provenance of strip/reverse into parse/apply calls in both drivers, single-resolution-routine who-may-call, direction-duality of match arms",
-    "C17": "range analysis on slice bounds in cmd_push, effect-before-refusal ordering, error-propagation dominance before save phases",
+    "C17": "difference-bound range analysis on slice bounds in cmd_push (incl. path-restricted run through the UpTo arm: range non-empty), "
+           "effect-before-refusal ordering, error-propagation dominance before save phases",
     "C18": "error-discipline analysis: fate of every Result in the output layer, BufWriter create->flush pairing, context wrapping on error paths",
     "C19": "taint analysis from patch file names to base_dir.join sinks with a structurally recognised sanitizer that must dominate",
-    "C20": "use-set analysis of the fuzz limit (only a range bound), purity of trial functions, loop-shape rule shared with C02",
+    "C20": "use-set analysis of the fuzz limit (only a range bound), provenance of the level given to every view construction, purity of "
+           "trial functions, loop-shape rule shared with C02",
 }
 
 LEVEL_TEXT = {
